@@ -3,7 +3,7 @@
 # checks, undo it. Writes /verif/work/seedruns/<ID>-<m>.txt and prints a summary line.
 ID="$1"; M="$2"; shift 2
 CHECKS="$@"; [ -z "$CHECKS" ] && CHECKS="C01 C02 C03 C04 C05 C06 C07 C08 C09 C10 C11 C12 C13 C14 C15 C16 C17 C18 C19 C20"
-OUT=/tmp/seedout/$ID/$M; [ -d "$OUT" ] || OUT=/verif/seeded/$ID-$M
+OUT=${SEED_OUT_ROOT:-/tmp/seedout}/$ID/$M; [ -d "$OUT" ] || OUT=/verif/seeded/$ID-$M
 LOG=/verif/work/seedruns/$ID-$M.txt; mkdir -p /verif/work/seedruns
 cd /repo || exit 2
 if [ -n "$(git status --porcelain)" ]; then echo "SEED $ID $M: /repo is not clean"; exit 2; fi
